@@ -262,15 +262,24 @@ Qed.
 
 Theorem hist_monitor (H P : rgraph) steps :
   state_okb H && state_okb P && forallb step_okb steps = true ->
-  state_ok H /\ state_ok P /\
-  Forall (fun s => match s with HEdit _ (EAddNode _ l) => dict_ok (fst l) | _ => True end) steps.
+  (state_ok H /\ Forall (fun e : N * N * rattrs => dict_ok (snd e)) (gedges H)) /\
+  (state_ok P /\ Forall (fun e : N * N * rattrs => dict_ok (snd e)) (gedges P)) /\
+  Forall (fun s => match s with
+                   | HEdit _ (EAddNode _ l) => dict_ok (fst l)
+                   | HEdit _ (EAddEdge _ _ d) => dict_ok d
+                   | _ => True
+                   end) steps.
 Proof.
-  rewrite !andb_true_iff. intros [[SH SP] SS]. unfold state_okb, state_ok, dict_okb, dict_ok in *.
-  rewrite forallb_forall in SH, SP, SS. split; [|split]; apply Forall_forall.
-  - intros p Hp. apply nodupb_spec. exact (SH p Hp).
-  - intros p Hp. apply nodupb_spec. exact (SP p Hp).
+  rewrite !andb_true_iff. intros [[SH SP] SS]. unfold state_okb in SH, SP. rewrite andb_true_iff in SH, SP.
+  destruct SH as [SH1 SH2], SP as [SP1 SP2]. unfold state_ok, dict_okb, dict_ok in *.
+  rewrite forallb_forall in SH1, SH2, SP1, SP2, SS.
+  split; [split|split; [split|]]; apply Forall_forall.
+  - intros p Hp. apply nodupb_spec. exact (SH1 p Hp).
+  - intros e He. apply nodupb_spec. exact (SH2 e He).
+  - intros p Hp. apply nodupb_spec. exact (SP1 p Hp).
+  - intros e He. apply nodupb_spec. exact (SP2 e He).
   - intros s Hs. specialize (SS s Hs). destruct s as [side e| |]; simpl; trivial.
-    destruct e; simpl; trivial. apply nodupb_spec. exact SS.
+    destruct e; simpl; trivial; apply nodupb_spec; exact SS.
 Qed.
 
 Example ex_hist_monitor : state_okb Hh && state_okb Ph && forallb step_okb script7 = true.
